@@ -11,6 +11,9 @@ CLAIMS = {
  "C19": dict(level="proof", design="3/C19",
    text="Proof that the CLI's counter/exit arithmetic (model of main.rs counting, exclusion order, summary, exit) is zero exactly when every considered file is quiet, or soft with --allow-warnings, that the printed totals equal the printed diagnostics per severity plus one per missing file, and that excluded files contribute nothing unless --no-exclude - for every list of command-line entries. Tied to /repo by running the real binary on generated argument lists/options/configurations and evaluating model and specification on the observed exit status, summary and printed diagnostics.",
    note="Trusted: per-file outcomes taken from Checker::test_on through the harness; output parsers; unreadable files and glob walk errors cannot be produced as root in this sandbox (modelled, not sampled)."),
+ "C16": dict(level="proof", design="3/C16",
+   text="Proof that the dialect selene parses with is exactly the union of the declared lua_versions (5.1 when none), that a construct is accepted iff some declared version has it, that unknown version names are exactly what is reported, that the dialect is inherited along base chains as C15 prescribes, and (re-proved on every run against data regenerated from /repo's names! table and default_std/*.yml) that each built-in library accepts the syntax of the version it is named after and of its bases. The construct table is validated exhaustively (64 version subsets x all samples) against full_moon::parse_fallible, lua_version() against the model on generated lists, and the CLI end to end on built-in names, generated yml base chains and `+` chains.",
+   note="Trusted: the parser itself (black box; its acceptance per dialect bit is measured, not proved); translator for BuiltinHeads.v; known findings D1 (parser panic on & | under Luau) and D2 (`;;` rejected) are third-party parser defects listed open in KNOWN_FINDINGS.txt."),
 }
 
 props = [json.loads(l) for l in open('/verif/properties.jsonl')]
